@@ -47,8 +47,35 @@ def has_structure(t):
 # strategies
 
 
+BIG = {0: 0, 1: 300, 2: 70000}
+
+
+def _big(i):
+    return int(str(BIG.get(i, i)))     # a fresh int object each time (CPython shares ints only up to 256)
+
+
+def bigify(c):
+    """The Python-side parts over variable ids 0 / 300 / 70000 (ids beyond one byte and beyond the interpreter's shared ints)"""
+    if c['part'] not in ('py-subst', 'py-inst', 'py-compose'):
+        return c
+    out = {}
+    for k, v in c.items():
+        if k in ('p', 'g'): out[k] = gens.rename_var_ids(v, _big)
+        elif k in ('delta', 'd1', 'd2'): out[k] = [(i, gens.rename_var_ids(a, _big)) for i, a in v]
+        elif k == 'x': out[k] = _big(v)
+        else: out[k] = v
+    out['big_ids'] = True
+    return out
+
+
 @st.composite
 def cases(draw):
+    c = draw(_cases())
+    return bigify(c) if draw(st.integers(0, 7)) == 0 else c
+
+
+@st.composite
+def _cases(draw):
     pool, _, defs = _nots()
     part = draw(st.sampled_from(['py-subst', 'py-subst', 'py-inst', 'py-inst', 'py-compose', 'sem', 'rust-inst']))
     if part == 'py-subst':
